@@ -188,6 +188,38 @@ class C09(Prop):
             rec["where"] = traceback.format_exc().strip().splitlines()[-3][:120]
             return [rec]
         out = [rec]
+        # two circuits that were BOTH compiled before one was composed onto the other, and no compilation afterwards
+        # (documented: compose does not update the compiled maps, so WHAT the circuit then does is not promised -- but
+        # whatever forward does, backward undoes it: C10 only)
+        if variant == "composed" and mode == "plain" and cls == "CliffordCircuit" and len(items) >= 2 and not scn.get("wide"):
+            rec3 = {"op": "circuit_rt", "n": n, "cls": cls, "mode": "compiled_halves", "variant": "composed", "probes": []}
+            try:
+                h = len(items) // 2
+                a, _, _ = circ.build(be, items[:h], n, cls, "circuit", "orig")
+                b, _, _ = circ.build(be, items[h:], n, cls, "circuit", "orig")
+                c3 = a.compose(b)
+                rec3["prog"] = [circ.wire_item(it) for it in items]
+                gens, lst, st = probes_for(n)
+                for kind, ins in (("map", gens), ("list", lst), ("state", st)):
+                    pr = {"kind": kind, "ins": ins}
+                    mk = (lambda: be.stabilizer.identity_map(n)) if kind == "map" else (lambda: be.plist(ins)) if kind == "list" else (lambda: be.state(ins, 1))
+                    if kind == "state":
+                        pr["r0"] = 1
+                    x = mk()
+                    c3.forward(x)
+                    c3.backward(x)
+                    pr["back"] = be.p_list(x)
+                    if kind == "state":
+                        pr["r_back"] = be.p_state(x)["r"]
+                    y = mk()
+                    c3.backward(y)
+                    c3.forward(y)
+                    pr["forth"] = be.p_list(y)
+                    rec3["probes"].append(pr)
+            except Exception as e:
+                rec3["exc"] = _exc(e)
+                rec3.setdefault("prog", rec["prog"])
+            out.append(rec3)
         # the same (already used, uncompiled) circuit after its rotation gates were given new generators -- by plain
         # attribute assignment, as the library's own constructors do, or by set_generator: it is then the new program
         # In the compiled modes the circuit is compiled again after the change (documented: compiled maps are snapshots).
